@@ -119,6 +119,16 @@ type ContractDB struct {
 	Files    []string
 	Expect   map[string]int
 	IfaceMethods map[string]*FuncContract // "Stream.Write"
+	Immutable []*ImmutableDecl
+}
+
+type ImmutableDecl struct {
+	PkgPath  string
+	TypeName string
+	Fields   []string
+	Writers  []string
+	File     string
+	Line     int
 }
 
 func newContractDB() *ContractDB {
@@ -165,7 +175,7 @@ func (db *ContractDB) loadContractFile(path string, pkgPath string, src []byte) 
 	var joined []rawLine
 	contTail := func(s string) bool {
 		s = strings.TrimSpace(s)
-		for _, suf := range []string{"&&", "||", "==>", "<==>", ",", "(", "::", "+", "-", "*", "=", "<", ">", "<=", ">="} {
+		for _, suf := range []string{"&&", "||", "==>", "<==>", ",", "(", "::", "+", "<=", ">="} {
 			if strings.HasSuffix(s, suf) {
 				return true
 			}
@@ -414,8 +424,21 @@ func (db *ContractDB) loadContractFile(path string, pkgPath string, src []byte) 
 		case "guards":
 			curM.Guards = append(curM.Guards, strings.Fields(strings.ReplaceAll(rest, ",", " "))...)
 		case "guardheaps":
+			if curM == nil {
+				return fmt.Errorf("%s:%d: guardheaps outside monitor", path, rl.line)
+			}
 			curM.GuardHeaps = append(curM.GuardHeaps, strings.Fields(strings.ReplaceAll(rest, ",", " "))...)
 		case "immutable":
+			if m := regexp.MustCompile(`^\(\*(\w+)\)\.([\w, ]+?)(?:\s+writers\s+(.*))?$`).FindStringSubmatch(rest); m != nil && curM == nil {
+				d := &ImmutableDecl{PkgPath: pkgPath, TypeName: m[1], File: path, Line: rl.line}
+				d.Fields = strings.Fields(strings.ReplaceAll(m[2], ",", " "))
+				d.Writers = strings.Fields(strings.ReplaceAll(m[3], ",", " "))
+				db.Immutable = append(db.Immutable, d)
+				if len(d.Writers) > 0 {
+					db.Trusted = append(db.Trusted, fmt.Sprintf("fields %s.%v are written only before publication by %v (writers are not checked to run before publication) (%s:%d)", d.TypeName, d.Fields, d.Writers, filepath.Base(path), rl.line))
+				}
+				break
+			}
 			curM.Immutable = append(curM.Immutable, strings.Fields(strings.ReplaceAll(rest, ",", " "))...)
 			db.Trusted = append(db.Trusted, fmt.Sprintf("immutable after publication (syntactic check only): %s.%s (%s:%d)", curM.TypeName, rest, filepath.Base(path), rl.line))
 		case "invariant":
@@ -480,7 +503,7 @@ func parseSite(s string) (*SiteSpec, error) {
 	ss.Kind = f[k]
 	if k+1 < len(f) {
 		t := f[k+1]
-		if j := strings.Index(t, "#"); j >= 0 {
+		if j := strings.Index(t, "#"); j >= 0 && ss.Kind != "go" {
 			n, _ := strconv.Atoi(t[j+1:])
 			ss.Nth = n
 			t = t[:j]
